@@ -706,27 +706,63 @@ fn check_write(val: &V, opts: &SerOpts, with_options: bool, short: usize, fault:
 // ------------------------------------------------------------------------------------------
 // known-finding signatures (predicates over the case; lexical, the library is not consulted)
 
-/// Text of the last document of a (truncated) stream, lexically: what follows the last line
-/// that is a `---` / `...` marker.
-fn last_document(prefix: &str) -> String {
-    let mut cur = String::new();
+#[derive(Clone, Copy, PartialEq, Debug)]
+enum Opener {
+    /// beginning of the stream
+    Start,
+    /// `---`
+    Dashes,
+    /// `...`
+    Dots,
+}
+/// Lexical split of a (truncated) stream at `---` / `...` marker lines: (opener, text).
+fn pieces(prefix: &str) -> Vec<(Opener, String)> {
+    let mut out = vec![(Opener::Start, String::new())];
     for line in prefix.split_inclusive('\n') {
         let l = line.trim_end_matches(['\n', '\r']);
-        if l == "---" || l == "..." {
-            cur.clear();
-        } else if let Some(rest) = l.strip_prefix("--- ") {
-            cur.clear();
-            cur.push_str(rest);
-            cur.push('\n');
-        } else if let Some(rest) = l.strip_prefix("... ") {
-            cur.clear();
-            cur.push_str(rest);
-            cur.push('\n');
+        let (marker, rest) = if l == "---" {
+            (Some(Opener::Dashes), "")
+        } else if l == "..." {
+            (Some(Opener::Dots), "")
+        } else if let Some(r) = l.strip_prefix("--- ") {
+            (Some(Opener::Dashes), r)
+        } else if let Some(r) = l.strip_prefix("... ") {
+            (Some(Opener::Dots), r)
         } else {
-            cur.push_str(line);
+            (None, "")
+        };
+        match marker {
+            Some(m) => {
+                let mut t = rest.to_string();
+                if !t.is_empty() {
+                    t.push('\n');
+                }
+                out.push((m, t));
+            }
+            None => out.last_mut().unwrap().1.push_str(line),
         }
     }
-    cur
+    out
+}
+/// The documents a parser finds in the pieces: text after `---` is always a document (possibly
+/// empty = null); text at the start of the stream or after `...` is one only if it has content
+/// (an entirely empty stream counts as one empty document: the library synthesises a null).
+fn documents_of(prefix: &str) -> Vec<String> {
+    let ps = pieces(prefix);
+    let mut v: Vec<String> = ps
+        .into_iter()
+        .filter(|(o, t)| *o == Opener::Dashes || !strip_comments(t.strip_prefix('\u{FEFF}').unwrap_or(t)).is_empty())
+        .map(|(_, t)| t)
+        .collect();
+    if v.is_empty() {
+        // a stream without any content: the library synthesises one null document
+        v.push(String::new());
+    }
+    v
+}
+/// Text of the last document of a (truncated) stream.
+fn last_document(prefix: &str) -> String {
+    documents_of(prefix).pop().unwrap_or_default()
 }
 fn strip_comments(doc: &str) -> String {
     let mut out = String::new();
@@ -752,15 +788,9 @@ fn nullish_text(doc: &str) -> bool {
     let t = strip_comments(doc.strip_prefix('\u{FEFF}').unwrap_or(doc));
     matches!(t.as_str(), "" | "~" | "null" | "Null" | "NULL")
 }
-/// Number of `---` / `...` marker lines in the text.
-fn marker_lines(prefix: &str) -> usize {
-    prefix
-        .lines()
-        .filter(|l| {
-            let l = l.trim_end_matches('\r');
-            l == "---" || l == "..." || l.starts_with("--- ") || l.starts_with("... ")
-        })
-        .count()
+/// Number of documents with content (not null-like) in the text.
+fn content_documents(prefix: &str) -> usize {
+    documents_of(prefix).iter().filter(|d| !nullish_text(d)).count()
 }
 
 struct C10;
@@ -787,7 +817,7 @@ fn seen_prefixes(c: &Case) -> Vec<String> {
             }
             // the position of a call-indexed fault depends on the library's buffer sizes: take
             // it from the fault-free run of the same entry point (deterministic up to the fault)
-            FaultAt::Call(n) => {
+            FaultAt::Call(_) => {
                 let Case::Read { target, entry, sched, .. } = c else { unreachable!() };
                 if iofault::percent_tail(doc.as_bytes()) {
                     return vec![];
@@ -843,13 +873,16 @@ fn case_signatures(c: &Case) -> Vec<&'static str> {
     }
     if entry.is_iter() {
         let prefixes = seen_prefixes(c);
-        // (ii) the error arrives while the iterator is skipping a null-like / empty document
-        if prefixes.iter().any(|p| nullish_text(&last_document(p))) {
+        // (ii) the error is already pending while the iterator skips a null-like / empty
+        // document.  The scanner runs several tokens (even documents) ahead of the iterator, so
+        // the distance between the null document and the fault is not bounded in bytes: any
+        // null-like document in what was delivered puts the case into this finding's domain.
+        if prefixes.iter().any(|p| documents_of(p).iter().any(|d| nullish_text(d))) {
             v.push("iter_error_while_skipping_null");
         }
-        // (iii) the iterator resynchronises after an I/O error: needs a document boundary in
-        // what was delivered
-        if prefixes.iter().any(|p| marker_lines(p) > 0) {
+        // (iii) the iterator resynchronises after an I/O error raised inside a document and
+        // yields a later one: needs two documents with content in what was delivered
+        if prefixes.iter().any(|p| content_documents(p) >= 2) {
             v.push("iter_resync_after_io_error");
         }
     }
@@ -921,6 +954,12 @@ fn documents() -> Vec<(String, Vec<Target>)> {
     add("x\n...\ny: [", &[U, Str]);
     add("a: 1\n...\n", &[U, Rec]);
     add("a: 1\n...\nb: 2\n", &[U, Rec]);
+    // content-free text after the document end: only the final finish() sees a fault there
+    add("a: 1\n...\n# trailing\n", &[U, Rec]);
+    add("a: 1\nb: 2\n...\n\n\n", &[U, Rec]);
+    add("- 1\n...\n   \n# c\n", &[U, VecI]);
+    add("x\n...\n#\n#\n", &[U, Str]);
+    add("---\na: 1\n...\n# one\n---\na: 2\n...\n# two\n", &[U, Rec]);
     add("---\na: 1\n", &[U, Rec]);
     add("--- a\n--- b\n", &[U, Str]);
     add("x\n---\ny\n---\nz\n", &[U, Str]);
@@ -949,7 +988,7 @@ fn documents() -> Vec<(String, Vec<Target>)> {
     d
 }
 
-/// All sequences of 1..=3 lines (quick: 1..=2 plus a third of the triples) over a small line
+/// All sequences of 1..=3 lines (quick: 1..=2 plus two thirds of the triples) over a small line
 /// alphabet: valid and invalid documents, streams, null-like documents, multi-byte text.
 fn generated_documents(thorough: bool) -> Vec<(String, Vec<Target>)> {
     const LINES: [&str; 12] = ["a: 1\n", "b: 2\n", "- x\n", "k:\n  n: 2\n", "---\n", "...\n", "# c\n", "é: ü\n", "~\n", "x\n", "[1, 2]\n", "\n"];
@@ -970,7 +1009,7 @@ fn generated_documents(thorough: bool) -> Vec<(String, Vec<Target>)> {
             i += 1;
             for c in 0..n {
                 i += 1;
-                if thorough || (a + 2 * b + 3 * c) % 3 == 0 {
+                if thorough || (a + 2 * b + 3 * c) % 3 != 1 {
                     push(format!("{}{}{}", LINES[a], LINES[b], LINES[c]), i);
                 }
             }
@@ -1227,13 +1266,18 @@ impl Property for C10 {
     fn selfcheck() -> Result<(), String> {
         iofault::selfcheck()?;
         // the lexical helpers used by the signatures
-        for (t, want) in [("a\n---\n~\n", "~\n"), ("x\n...\ny", "y"), ("--- a\n", "a\n"), ("a: 1\n", "a: 1\n"), ("a\n---", "")] {
+        for (t, want) in [("a\n---\n~\n", "~\n"), ("x\n...\ny", "y"), ("--- a\n", "a\n"), ("a: 1\n", "a: 1\n"), ("a\n---", ""), ("a: 1\n...\n# c\n", "a: 1\n"), ("", ""), ("---\na\n", "a\n"), ("a\n...\n~", "~")] {
             if last_document(t) != want {
                 return Err(format!("last_document({t:?}) = {:?}", last_document(t)));
             }
         }
         if !nullish_text("# c\n~ # x\n") || nullish_text("nul") || !nullish_text("") {
             return Err("nullish_text wrong".into());
+        }
+        for (t, want) in [("", 0), ("a", 1), ("a\n---\n~\n---\nb", 2), ("x\n...\ny: [", 2), ("a: 1\n...\n# c\n", 1), ("---\n---\n", 0), ("---\na\n...\n---\n-", 2), ("...\n", 0)] {
+            if content_documents(t) != want {
+                return Err(format!("content_documents({t:?}) = {}", content_documents(t)));
+            }
         }
         // every writer value must serialise, and differently shaped values differ
         for v in writer_values() {
@@ -1264,6 +1308,10 @@ impl Property for C10 {
     }
 
     fn signatures(c: &Case) -> Vec<&'static str> {
+        // development aid (validation of candidate fixes in a scratch tree): judge every case
+        if std::env::var_os("VCHECK_NOSIG").is_some() {
+            return vec![];
+        }
         case_signatures(c)
     }
 
@@ -1339,7 +1387,7 @@ impl Property for C10 {
                     // complete-prefix table for this (doc, target, entry)
                     let complete: Vec<bool> = (0..=len).map(|k| prefix_complete(doc, k, target, entry)).collect();
                     for (si, sched) in scheds.iter().enumerate() {
-                        if !full && !thorough && si != di % 3 {
+                        if !full && !thorough && si == di % 3 {
                             continue;
                         }
                         let (_, st, pos_at_call) = clean(doc.as_bytes(), target, entry, sched);
@@ -1500,7 +1548,7 @@ impl Property for C10 {
         // ---- random streams x random fault plans -----------------------------------------------
         {
             let strat = arb_read_case().prop_filter("reader_percent_eof", |c| !hazardous(c));
-            ctx.run_strategy("read-fault-random", 1, ctx.tier.pick(6_000, 150_000), &strat, |c| match c {
+            ctx.run_strategy("read-fault-random", 1, ctx.tier.pick(40_000, 600_000), &strat, |c| match c {
                 Case::Read { doc, target, entry, fault: ReadFault { at: FaultAt::Byte(k), .. }, .. } => prefix_complete(doc, *k, *target, *entry),
                 _ => false,
             });
@@ -1578,6 +1626,37 @@ fn main() {
                 let (r, st, _) = clean(text.as_bytes(), Target::U, entry, &sched);
                 println!("{entry:?} {sched:?}: {} calls={} handed={}", show(&r), st.calls, st.handed);
             }
+        }
+        return;
+    }
+    if args.get(1).map(|s| s.as_str()) == Some("probe-trace") {
+        // c10 probe-trace <text>: when does the iterator start deserializing relative to reader progress?
+        use std::io::Read;
+        thread_local! { static POS: RefCell<(usize, usize)> = const { RefCell::new((0, 0)) }; }
+        struct Tr<'a>(FaultyReader<'a>);
+        impl Read for Tr<'_> {
+            fn read(&mut self, b: &mut [u8]) -> std::io::Result<usize> {
+                let r = self.0.read(b);
+                POS.with(|p| *p.borrow_mut() = (self.0.handed, self.0.calls));
+                println!("   read -> {:?} (handed {}, call {})", r.as_ref().map_err(|e| e.kind()), self.0.handed, self.0.calls);
+                r
+            }
+        }
+        #[derive(Debug)]
+        struct Loud(#[allow(dead_code)] U);
+        impl<'de> Deserialize<'de> for Loud {
+            fn deserialize<D: serde::Deserializer<'de>>(d: D) -> Result<Self, D::Error> {
+                println!("   deserialize starts at {:?}", POS.with(|p| *p.borrow()));
+                let r = U::deserialize(d).map(Loud);
+                println!("   deserialize ends at {:?}: {:?}", POS.with(|p| *p.borrow()), r.as_ref().map_err(|_| "err"));
+                r
+            }
+        }
+        let text = args[2].replace("\\n", "\n");
+        let sched = Sched::Fixed(1);
+        let mut rd = Tr(FaultyReader::new(text.as_bytes(), &sched));
+        for it in serde_saphyr::read::<_, Loud>(&mut rd) {
+            println!("item {:?}", it.map_err(|e| sum_err(&e)));
         }
         return;
     }
